@@ -51,6 +51,13 @@ func init() {
 					items = append(items, Item{ID: mc.ID() + "/aliased-lists", Run: func(c *Ctx) { c15(c, mc, true) }})
 				}
 			}
+			for _, mod := range modules {
+				ms := c.sc.Mods[mod]
+				for _, tn := range ms.TableNames() {
+					mod, tab := mod, ms.Tables[tn]
+					items = append(items, Item{ID: fmt.Sprintf("unknownkey:%s.%s", mod, tab.Owner), Run: func(c *Ctx) { c15unknown(c, mod, tab) }})
+				}
+			}
 			return items
 		}}
 	drivers["C09"] = &Driver{Prop: "C09", Level: "model_checking",
@@ -296,7 +303,15 @@ func (c *Ctx) sameTypedLists(mod, tn string) bool {
 	return false
 }
 
-func c15(c *Ctx, mc MsgCase, aliased bool) {
+// c15unknown: an image whose discriminator is not registered, decoded into a fresh and into a dirty receiver:
+// same outcome, and when both accept (a lenient decoder) the same fields - whatever the receiver held before.
+func c15unknown(c *Ctx, mod string, tab *TableSpec) {
+	c15impl(c, MsgCase{Mod: mod, Typ: tab.Owner, Key: -1}, false, tab)
+}
+
+func c15(c *Ctx, mc MsgCase, aliased bool) { c15impl(c, mc, aliased, nil) }
+
+func c15impl(c *Ctx, mc MsgCase, aliased bool, unknown *TableSpec) {
 	if hx := os.Getenv("VF_DBG_HEX"); hx != "" {
 		// debugging aid: decode a concrete input in the executor and print what it does with it
 		raw, _ := hex.DecodeString(hx)
@@ -310,7 +325,38 @@ func c15(c *Ctx, mc MsgCase, aliased bool) {
 		}
 		return
 	}
-	h, w, _, tail := c.rawHarness(mc, 2)
+	var h *harness
+	var w *Bytes
+	var tail []*Term
+	if unknown == nil {
+		h, w, _, tail = c.rawHarness(mc, 2)
+	} else {
+		// as in C09's unknownkey items: the key field is symbolic and excluded from the registered keys, no body in
+		// the image, 8 arbitrary bytes follow
+		h = c.newHarness(mc, "raw", 0)
+		ts := c.sc.Mods[mc.Mod].Types[mc.Typ]
+		bf := ts.BodyField()
+		for i := range ts.Fields {
+			if ts.Fields[i].Go != bf.Key {
+				continue
+			}
+			kv := h.m.F[i]
+			for _, en := range unknown.Entries {
+				switch k := en[0].(type) {
+				case string:
+					tr := refTrim(kv.S.Norm().Vec, &ts.Fields[i])
+					h.s.pc = append(h.s.pc, Not(strEqTerm(tr, ConstBytes(k))))
+				case float64:
+					h.s.pc = append(h.s.pc, Not(Eq(kv.T, C(kv.T.W, uint64(k)))))
+				}
+			}
+		}
+		h.ref.Sum = func(alg string, frame *Bytes) *Term { return c.e().freshVar("wiresum", 32) }
+		w, _ = h.ref.Enc(h.m)
+		for i := 0; i < 8; i++ {
+			tail = append(tail, c.e().freshVar("tail", 8))
+		}
+	}
 	e := c.e()
 	s := h.s
 	in := Concat2(w, VecBytes(tail))
@@ -318,7 +364,11 @@ func c15(c *Ctx, mc MsgCase, aliased bool) {
 	buf2 := s.newObj(&Obj{Kind: kBuffer, B: in, R: CI(0)})
 	input := func(val func(*Term) uint64) []byte { return evalBytes(in, val) }
 	fresh := h.freshReceiver(s)
-	dirty := c.dirtyReceiver(h, s, mc)
+	dmc := mc
+	if unknown != nil {
+		dmc.Key = 0 // the dirty receiver holds a registered body/extension
+	}
+	dirty := c.dirtyReceiver(h, s, dmc)
 	if aliased {
 		// every later list field of the same type becomes the very slice of the first one
 		o := s.heap[dirty.Obj]
